@@ -349,6 +349,8 @@ class Histogram1D(ObjectWithBinning, HistogramBase):
             self._get_axis(axis)  # Check that it is valid
         if not np.isscalar(value):
             raise ValueError(f"Non-scalar value for 1D histogram: {value}")
+        if np.isnan(value):
+            return None  # In no bin (the same answer as in N-D histograms)
         ixbin = np.searchsorted(self.bin_left_edges, value, side="right").item()
         if ixbin == 0:
             return -1
@@ -378,6 +380,8 @@ class Histogram1D(ObjectWithBinning, HistogramBase):
         Note: If a gap in unconsecutive bins is matched, underflow & overflow are not valid anymore.
         Note: Name was selected because of the eponymous method in ROOT
         """
+        if np.isscalar(value) and np.isnan(value):
+            return None  # Not an observation (as in fill_n and in the constructors)
         self._coerce_dtype(type(weight))
         if self._binning.is_adaptive():
             bin_map = self._binning.force_bin_existence(value)
